@@ -411,6 +411,11 @@ class Report:
     def violation(self, signature, what, replay, found_input=True):
         self.violations.append(dict(signature=signature, what=what, replay=replay, found_input=found_input))
 
+    def unlisted_inputs(self):
+        """violations with a failing input that are not open known findings"""
+        open_keys = set(json.dumps(f["signature"], sort_keys=True) for f in load_findings() if f["property"] == self.prop and f["status"] == "open")
+        return [v for v in self.violations if v["found_input"] and json.dumps(v["signature"], sort_keys=True) not in open_keys]
+
     def finish(self, level="proof"):
         findings = [f for f in load_findings() if f["property"] == self.prop]
         open_f = {json.dumps(f["signature"], sort_keys=True): f for f in findings if f["status"] == "open"}
